@@ -62,7 +62,7 @@ func checkC12(c *Ctx, r *Result, tier string) {
 			continue
 		}
 		for _, op := range lf.Ops {
-			if op.Kind == "Lock" && strings.HasPrefix(op.Class, "local:") && comesFromField(op.Recv, fMutexes) {
+			if op.Kind == "Lock" && strings.HasPrefix(op.Class, "local:") && (comesFromField(op.Recv, fMutexes) || fromLookupHelper(c, op.Recv, fMutexes) != nil) {
 				if blockFn != nil && blockFn != fn {
 					r.Undecide("more than one function locks a named ECAL mutex: %s and %s", c.FuncKey(blockFn), c.FuncKey(fn))
 				}
@@ -88,6 +88,26 @@ func checkC12(c *Ctx, r *Result, tier string) {
 	}
 	var ops []tableOp
 	fns := append([]*ssa.Function{blockFn}, blockFn.AnonFuncs...)
+	for _, base := range append([]*ssa.Function{blockFn}, blockFn.AnonFuncs...) {
+		for h := range staticCalleesIn(c, base) {
+			touches := false
+			for _, f := range []*types.Var{fMutexes, fOwners} {
+				if len(elemAccessesOf(h, f)) > 0 {
+					touches = true
+				}
+			}
+			dup := false
+			for _, x := range fns {
+				if x == h {
+					dup = true
+				}
+			}
+			if touches && !dup {
+				fns = append(fns, h)
+			}
+		}
+	}
+	helperFns := fns[1+len(blockFn.AnonFuncs):]
 	for _, fn := range fns {
 		for _, f := range []*types.Var{fMutexes, fOwners} {
 			for _, a := range elemAccessesOf(fn, f) {
@@ -159,6 +179,30 @@ func checkC12(c *Ctx, r *Result, tier string) {
 			}
 		}
 	}
+	if unlockOp == nil {
+		// a deferred release helper that is handed the mutex: defer rt.release(name, mutex, tid)
+		allInstrs(blockFn, func(in ssa.Instruction) {
+			d, isDefer := in.(*ssa.Defer)
+			if !isDefer || d.Call.StaticCallee() == nil {
+				return
+			}
+			h := d.Call.StaticCallee()
+			args := callArgs(d.Common())
+			for i, a := range args {
+				if accessPath(a) != userLock.Path || i >= len(h.Params) {
+					continue
+				}
+				if hl := lfs.Of(h); hl != nil {
+					for j := range hl.Ops {
+						if hl.Ops[j].Kind == "Unlock" && hl.Ops[j].Recv == ssa.Value(h.Params[i]) {
+							unlockOp = &hl.Ops[j]
+						}
+					}
+				}
+			}
+		})
+	}
+	_ = helperFns
 	if unlockOp == nil {
 		// maybe a plain deferred Unlock in the function itself
 		for i := range lfBlock.Ops {
@@ -488,4 +532,36 @@ func c12Sentinel(c *Ctx, r *Result, haveClear bool, clearVal ssa.Value) {
 		return
 	}
 	r.Instance("R12d", site, "", "ok", fmt.Sprintf("free value %d < first thread id %d; the id counter is only incremented (%d stores)", sentinel, min, n), true)
+}
+
+
+// fromLookupHelper: v is result #0 of a static helper whose every returned value #0 comes from the
+// given map field (a get-or-create lookup moved into a helper). Returns the call.
+func fromLookupHelper(c *Ctx, v ssa.Value, f *types.Var) *ssa.Call {
+	e, ok := unspill(v).(*ssa.Extract)
+	var call *ssa.Call
+	idx := 0
+	if ok {
+		call, _ = e.Tuple.(*ssa.Call)
+		idx = e.Index
+	} else {
+		call, _ = unspill(v).(*ssa.Call)
+	}
+	if call == nil {
+		return nil
+	}
+	h := call.Call.StaticCallee()
+	if h == nil || !c.modFuncSet[h] || len(h.Blocks) == 0 {
+		return nil
+	}
+	rvs := returnedValues(h, idx)
+	if len(rvs) == 0 {
+		return nil
+	}
+	for _, rv := range rvs {
+		if !comesFromField(rv, f) {
+			return nil
+		}
+	}
+	return call
 }
